@@ -394,11 +394,16 @@ def run(ctx):
     for sim, label in outs:
         T.compare(ctx, sim, ctx.driver(sim.lines), label)
     setup_config_rule(ctx)
+    from props import c17_sched
+    c17_sched.setup_rule_grid(ctx)
     if plans:
         ctx.sample({"scenario": {"n_ens": plans[2][0], "workers": plans[2][1], "chain": plans[2][2]}})
     if outs:
         ctx.sample({"mirrored_ops_of_one_life": outs[-1][0].lines[:14]})
-    # runner half
+    # runner half, the runner's own code as a transition system (deterministic, in-process)
+    from props import c17_sys
+    c17_sys.run_sys(ctx)
+    # runner half, the real runtime: trace validation
     try:
         from props import c17_runner
         c17_runner.run_runner(ctx)
@@ -417,6 +422,9 @@ def replay(ctx, obj):
     if sig.startswith("C17:runner:"):
         from props import c17_runner
         return c17_runner.replay_runner(ctx, obj)
+    if sig.startswith("C17:rsys:") or sig.startswith("C17:future_list:"):
+        from props import c17_sys
+        return c17_sys.replay_sys(ctx, obj)
     r = obj.get("replay", {})
     if "steps" in r and "cstep" in r:
         setup_config_rule(ctx)
